@@ -74,6 +74,20 @@ func init() {
 			Req: []string{"neq($r.FormValue(\"grant_type\"), oidc.GrantTypeDeviceCode) || false($exchanger.GrantTypeDeviceCodeSupported()) || called(op.DeviceAccessToken(__))"}},
 		{ID: "E1.dispatch.iff.jwt", Fn: "op.Exchange", P: []string{"w", "r", "exchanger"}, Kind: "ret any", MutOK: []string{"r"},
 			Req: []string{"neq($r.FormValue(\"grant_type\"), oidc.GrantTypeBearer) || false($exchanger.GrantTypeJWTAuthorizationSupported()) || notis($exchanger, JWTAuthorizationGrantExchanger) || called(op.JWTProfile(__))"}},
+		// the Server router serves a grant whenever discovery advertises it: LegacyServer answers "grant not implemented" only
+		// when the very capability predicate that GrantTypes() advertises is false (no extra condition on the serving side)
+		{ID: "E1.serve.iff.legacy.refresh", Fn: "op.(*LegacyServer).RefreshToken", P: []string{"s", "ctx", "r"}, Kind: "ret fail", When: []string{"errOrig($r1, op.unimplementedGrantError)"},
+			Why: "refresh_token is refused as unimplemented only if it is not advertised", Req: []string{"false($s.provider.GrantTypeRefreshTokenSupported())"}},
+		{ID: "E1.serve.iff.legacy.te", Fn: "op.(*LegacyServer).TokenExchange", P: []string{"s", "ctx", "r"}, Kind: "ret fail", When: []string{"errOrig($r1, op.unimplementedGrantError)"},
+			Why: "token-exchange is refused as unimplemented only if it is not advertised", Req: []string{"false($s.provider.GrantTypeTokenExchangeSupported())"}},
+		{ID: "E1.serve.iff.legacy.device", Fn: "op.(*LegacyServer).DeviceToken", P: []string{"s", "ctx", "r"}, Kind: "ret fail", When: []string{"errOrig($r1, op.unimplementedGrantError)"},
+			Why: "device_code is refused as unimplemented only if it is not advertised", Req: []string{"false($s.provider.GrantTypeDeviceCodeSupported())"}},
+		{ID: "E1.serve.iff.legacy.device-authorization", Fn: "op.(*LegacyServer).DeviceAuthorization", P: []string{"s", "ctx", "r"}, Kind: "ret fail", Opt: true, When: []string{"errOrig($r1, op.unimplementedGrantError)"},
+			Why: "device authorization is refused as unimplemented only if the device grant is not advertised", Req: []string{"false($s.provider.GrantTypeDeviceCodeSupported())"}},
+		{ID: "E1.serve.iff.legacy.cc", Fn: "op.(*LegacyServer).ClientCredentialsExchange", P: []string{"s", "ctx", "r"}, Kind: "ret fail", When: []string{"errOrig($r1, op.unimplementedGrantError)"},
+			Why: "client_credentials is refused as unimplemented only if the storage lacks the capability that advertises it", Req: []string{"notis($s.provider.Storage(), ClientCredentialsStorage)"}},
+		{ID: "E1.serve.iff.legacy.jwt", Fn: "op.(*LegacyServer).JWTProfile", P: []string{"s", "ctx", "r"}, Kind: "ret fail", When: []string{"errOrig($r1, op.unimplementedGrantError)"},
+			Why: "jwt-bearer is refused as unimplemented only if the provider is no JWT exchanger", Req: []string{"notis($s.provider, JWTAuthorizationGrantExchanger)"}},
 		// capability normal forms
 		{ID: "E7.capability.refresh", Fn: "op.(*Provider).GrantTypeRefreshTokenSupported", P: []string{"o"}, Kind: "ret any", Pat: "ret($o.config.GrantTypeRefreshToken)", Max: 1, Only: true},
 		{ID: "E7.capability.cc", Fn: "op.(*Provider).GrantTypeClientCredentialsSupported", P: []string{"o"}, Kind: "ret any", Pat: "ret($ok)", Max: 1, Only: true, Req: []string{"def($ok, $o.storage.(ClientCredentialsStorage), 1)"}},
